@@ -24,6 +24,13 @@ CHECKS = {
             'Generated-input search plus a complete 8-row x flags x score-form table; score compared with an exact '
             'Fraction sum within the rounding tolerance.',
             'Only the score forms named in the property are generated; suppression model shared with C01.', '3/C03'),
+    'C20': ('Hypothesis rule-based state machine over MAIN_REPORT (create/override/clear/contextualize/set_formatter/'
+            'delayed conditions) with a bookkeeping model, an independent template renderer and a pristine class-attribute '
+            'snapshot as invariants after every step',
+            'Stateful generated-input search: histories of up to 20 operations; every step is followed by identity-count, '
+            'truth-value, error-path, rendering and override-restoration invariants.',
+            'Formatter methods are trusted (dispatch and operand are checked); override fields limited to seven attributes; '
+            'class pool = core commands, one tool class, three run-time generated instructor subclasses.', '3/C20'),
 }
 
 NOT_YET = {}
